@@ -12,7 +12,12 @@ import (
 	"google.golang.org/protobuf/reflect/protoreflect"
 	"google.golang.org/protobuf/reflect/protoregistry"
 	"google.golang.org/protobuf/types/descriptorpb"
+	"google.golang.org/protobuf/types/known/durationpb"
+	"google.golang.org/protobuf/types/known/emptypb"
+	"google.golang.org/protobuf/types/known/fieldmaskpb"
+	"google.golang.org/protobuf/types/known/structpb"
 	"google.golang.org/protobuf/types/known/timestamppb"
+	"google.golang.org/protobuf/types/known/wrapperspb"
 	"google.golang.org/protobuf/types/pluginpb"
 )
 
@@ -24,7 +29,7 @@ var scalarTypes = map[string]descriptorpb.FieldDescriptorProto_Type{
 	"string": descriptorpb.FieldDescriptorProto_TYPE_STRING, "bytes": descriptorpb.FieldDescriptorProto_TYPE_BYTES,
 	"uint32": descriptorpb.FieldDescriptorProto_TYPE_UINT32, "sfixed32": descriptorpb.FieldDescriptorProto_TYPE_SFIXED32,
 	"sfixed64": descriptorpb.FieldDescriptorProto_TYPE_SFIXED64, "sint32": descriptorpb.FieldDescriptorProto_TYPE_SINT32,
-	"sint64": descriptorpb.FieldDescriptorProto_TYPE_SINT64,
+	"sint64":  descriptorpb.FieldDescriptorProto_TYPE_SINT64,
 	"message": descriptorpb.FieldDescriptorProto_TYPE_MESSAGE, "enum": descriptorpb.FieldDescriptorProto_TYPE_ENUM,
 }
 
@@ -71,7 +76,7 @@ type lowerer struct {
 	msgPath string
 	pkg     string
 	proto2  bool
-	locs []*descriptorpb.SourceCodeInfo_Location
+	locs    []*descriptorpb.SourceCodeInfo_Location
 }
 
 func (l *lowerer) fq(t string) string {
@@ -393,6 +398,11 @@ func init() {
 	}
 	add(descriptorpb.File_google_protobuf_descriptor_proto)
 	add(timestamppb.File_google_protobuf_timestamp_proto)
+	add(durationpb.File_google_protobuf_duration_proto)
+	add(wrapperspb.File_google_protobuf_wrappers_proto)
+	add(structpb.File_google_protobuf_struct_proto)
+	add(emptypb.File_google_protobuf_empty_proto)
+	add(fieldmaskpb.File_google_protobuf_field_mask_proto)
 	add(sebufhttp.File_proto_sebuf_http_annotations_proto)
 	add(sebufhttp.File_proto_sebuf_http_headers_proto)
 	add(sebufhttp.File_proto_sebuf_http_errors_proto)
